@@ -185,7 +185,9 @@ func (fc *funcContext) translateMethod(fun *ast.FuncDecl) []byte {
 	if _, isStruct := recvType.Underlying().(*types.Struct); isStruct {
 		code := bytes.Buffer{}
 		code.Write(primaryFunction(ptrPrototypeVar))
-		code.Write(proxyFunction(prototypeVar, "this.$val"))
+		// The proxy is what a call through an interface reaches: a method with a
+		// value receiver works on a copy of the value the interface holds.
+		code.Write(proxyFunction(prototypeVar, fmt.Sprintf("$clone(this.$val, %s)", recvInstName)))
 		return code.Bytes()
 	}
 
@@ -257,6 +259,11 @@ func (fc *funcContext) translateFunctionBody(typ *ast.FuncType, recv *ast.Ident,
 			this := "this"
 			if isWrapped(fc.typeOf(recv)) {
 				this = "this.$val" // Unwrap receiver value.
+				if _, isArray := fc.typeOf(recv).Underlying().(*types.Array); isArray {
+					// An array receiver is a copy of the array the method was called on
+					// (a call through an interface passes the array the interface holds).
+					this = fmt.Sprintf("$clone(this.$val, %s)", fc.typeName(fc.typeOf(recv)))
+				}
 			}
 			fc.Printf("%s = %s;", fc.translateExpr(recv), this)
 		}
